@@ -182,6 +182,8 @@ def run_history(ctx, out: common.Outcome, model_key: str, nsteps: int, observers
             out.hit(f"kind.{st.rel.kind}")
         for ob in observers:
             ob.step(rec, model)
+        if getattr(model, "_verif_stop", False):
+            break
         scan = after
         if st.op in ("create", "delitem", "remove", "insert", "append", "setitem", "clear") and i % 7 == 0:
             rels = objops.discover(model, rng, max_objs=ctx.pick(250, 600))
